@@ -69,7 +69,8 @@ def check_cfg(ctx, fx, cfg):
         none_edges = [e for e in nfa.edges_labelled(n, "sw:Option::None@") if e[1].split("@")[1] in ("next", "mailbox")]
         stop_edges = nfa.edges_labelled(n, "sw:Payload::Stop")
         end_edges = [e for e in nfa.edges_labelled(n, "sw:Option::None@") if e[1].split("@")[1] in ("snext", "stream")]
-        ctx.require(len(none_edges) >= 1 and len(stop_edges) >= 1 and len(end_edges) >= 1, "R13.1", inst + ":has-all-exits", "the stream loop must have a branch for Stop, for the closed mailbox (last handle dropped) and for the exhausted stream: found %d / %d / %d" % (len(stop_edges), len(none_edges), len(end_edges)), fn=f["def"], site=f["loc"])
+        as_stop = [s_ for s_ in loops.closed_as_stop_sites(fx) if s_[0] in loops.loop_family(fx, f)]  # closed mailbox read as Stop
+        ctx.require((len(none_edges) >= 1 or bool(as_stop)) and len(stop_edges) >= 1 and len(end_edges) >= 1, "R13.1", inst + ":has-all-exits", "the stream loop must have a branch for Stop, for the closed mailbox (last handle dropped) and for the exhausted stream: found %d / %d / %d" % (len(stop_edges), len(none_edges), len(end_edges)), fn=f["def"], site=f["loc"])
         up = f.get("upvars", [])
         # R13.5
         s_idx = [i for i, u in enumerate(up) if u == "S"]
